@@ -34,11 +34,15 @@ func segName(label string, k int) string {
 	if verifrt.Choice(label+"-absolute", 2) == 1 {
 		s = "/"
 	}
+	segs := segments
+	if verifrt.ParamStr("names") == "segments-small" {
+		segs = []string{"..", ".", "a"}
+	}
 	for i := 0; i < k; i++ {
 		if i > 0 {
 			s += "/"
 		}
-		s += segments[verifrt.Choice(label+"-segment", len(segments))]
+		s += segs[verifrt.Choice(label+"-segment", len(segs))]
 	}
 	return s
 }
@@ -53,7 +57,7 @@ func byteName(label string, n int) string {
 }
 
 func entryName(label string, n int) string {
-	if verifrt.ParamStr("names") == "segments" {
+	if strings.HasPrefix(verifrt.ParamStr("names"), "segments") {
 		return segName(label, n)
 	}
 	return byteName(label, n)
@@ -91,6 +95,12 @@ func VerifImageLoad() {
 		before = tree(tmp)
 	}
 	topBefore := map[string]bool{}
+	if verifrt.Native() {
+		// left-overs of an earlier replay of an escaping entry would hide a new escape
+		for _, n := range []string{"a", "aa", "b"} {
+			os.RemoveAll(path.Join(tmp, n))
+		}
+	}
 	if ents, err := os.ReadDir(tmp); err == nil {
 		for _, e := range ents {
 			topBefore[e.Name()] = true
